@@ -118,14 +118,16 @@ class APDCharacteristics:
                 "Not enough input parameters provided to calculate avalanche bias!"
             )
 
-        if quantum_efficiency and not (0.0 <= quantum_efficiency <= 1.0):
+        if quantum_efficiency is not None and not (0.0 <= quantum_efficiency <= 1.0):
             raise ValueError("'quantum_efficiency' must be between 0.0 and 1.0.")
 
-        if adc_bit_resolution and not (4 <= adc_bit_resolution <= 64):
+        if adc_bit_resolution is not None and not (4 <= adc_bit_resolution <= 64):
             raise ValueError("'adc_bit_resolution' must be between 4 and 64.")
-        if adc_voltage_range and not len(adc_voltage_range) == 2:
+        if adc_voltage_range is not None and not len(adc_voltage_range) == 2:
             raise ValueError("Voltage range must have length of 2.")
-        if full_well_capacity and not (0.0 <= full_well_capacity <= 1.0e7):
+        if full_well_capacity is not None and not (
+            0.0 <= full_well_capacity <= 1.0e7
+        ):
             raise ValueError("'full_well_capacity' must be between 0 and 1e7.")
 
         self._quantum_efficiency: float | None = quantum_efficiency
